@@ -51,8 +51,11 @@ KINDS_NOISY = ("normal", "nonneg", "int", "lowrank_noise")
 MAX_SIDE = {2: 5, 3: 5, 4: 4, 5: 3}
 
 
+SCALES = (1e-4, 1e-2, 1.0, 1.0, 1e2)     # data scale class: ||X|| both well below and well above 1
+
+
 @st.composite
-def tensor_enc(draw, orders=(2, 3, 4), kinds=KINDS_ALL, min_side=2, max_side=None, rmax=3):
+def tensor_enc(draw, orders=(2, 3, 4), kinds=KINDS_ALL, min_side=2, max_side=None, rmax=3, scales=None):
     order = draw(st.sampled_from(list(orders)))
     hi = max_side or MAX_SIDE[order]
     shape = draw(st.lists(st.integers(min_side, hi), min_size=order, max_size=order))
@@ -64,6 +67,10 @@ def tensor_enc(draw, orders=(2, 3, 4), kinds=KINDS_ALL, min_side=2, max_side=Non
         enc["seed"] = draw(gen.seeds)
     if kind in ("lowrank", "lowrank_noise", "lowrank_nonneg", "tucker", "tr"):
         enc["r"] = draw(st.integers(1, rmax))
+    if scales:
+        sc = draw(st.sampled_from(list(scales)))
+        if sc != 1.0:
+            enc["scale"] = sc
     return enc
 
 
@@ -95,7 +102,7 @@ def dec_tensor(enc):
             a = ref.tr_dense([rs.standard_normal((r, s, r)) for s in shape])
         else:
             raise ValueError(k)
-    a = np.ascontiguousarray(a, dtype=float)
+    a = np.ascontiguousarray(a, dtype=float) * float(enc.get("scale", 1.0))
     if not np.any(a):
         discard("zero tensor")
     return a
@@ -103,7 +110,7 @@ def dec_tensor(enc):
 
 # PARAFAC2 data: list of (J_i x K) slices ------------------------------------
 @st.composite
-def slices_enc(draw, kinds=("normal", "nonneg", "pf2_noise", "int"), rmax=3, min_rows=None):
+def slices_enc(draw, kinds=("normal", "nonneg", "pf2_noise", "int"), rmax=3, min_rows=None, scales=None):
     n = draw(st.integers(2, 4))
     K = draw(st.integers(2, 5))
     lo = min_rows or 2
@@ -116,6 +123,10 @@ def slices_enc(draw, kinds=("normal", "nonneg", "pf2_noise", "int"), rmax=3, min
            "nd": bool(equal and draw(st.booleans()))}
     if enc["k"].startswith("pf2"):
         enc["r"] = draw(st.integers(1, min(rmax, min(J), K)))
+    if scales:
+        sc = draw(st.sampled_from(list(scales)))
+        if sc != 1.0:
+            enc["scale"] = sc
     return enc
 
 
@@ -141,7 +152,7 @@ def dec_slices(enc):
             sl = [s + 0.05 * rs.standard_normal(s.shape) for s in sl]
     else:
         raise ValueError(k)
-    sl = [np.ascontiguousarray(s, dtype=float) for s in sl]
+    sl = [np.ascontiguousarray(s, dtype=float) * float(enc.get("scale", 1.0)) for s in sl]
     if not any(np.any(s) for s in sl):
         discard("zero tensor")
     return sl
